@@ -22,19 +22,21 @@ type recogniser struct {
 }
 
 const (
-	sigNegTwice     = "unary-minus|object-operand|converted-twice"
-	sigKeyTwice     = "computed-member|update-or-compound-assignment|key-converted-twice"
-	sigUnresCallee  = "call|unresolvable-callee|arguments-evaluated-before-ReferenceError"
-	sigGEvalFunc    = "direct-eval-in-global-code|function-declaration|cannot-see-lexical-declarations-of-the-eval-code"
-	sigArrowToStr   = "diff|R7evalstr|toString-not-reparseable|arrowe/parenthesised-body"
-	sigConstTDZ     = "const|assignment-in-temporal-dead-zone|TypeError-instead-of-ReferenceError"
-	sigSurplusArgs  = "function-prologue|arguments-in-stash|surplus-argument-overwrites-captured-variable"
-	sigVarParam     = "function-body|var-redeclares-rest-or-destructured-parameter|rejected-as-already-declared"
-	sigParamSelfRef = "function-prologue|self-or-forward-referencing-default-parameter|arguments-object-or-TDZ-check-wrong"
-	sigSuperField   = "class-field-initialiser|super-property|rejected-as-unexpected-super"
-	sigNestedLabel  = "label|continue-to-outer-label-of-doubly-labelled-loop|rejected-as-illegal-continue"
-	sigFinallyJump  = "completion-value|finally-left-by-nested-break-or-continue|value-of-try-block-kept"
-	sigDefaultParam = "function-prologue|default-parameter-after-forward-reference-or-eval|supplied-argument-left-uninitialised"
+	sigNegTwice       = "unary-minus|object-operand|converted-twice"
+	sigKeyTwice       = "computed-member|update-or-compound-assignment|key-converted-twice"
+	sigUnresCallee    = "call|unresolvable-callee|arguments-evaluated-before-ReferenceError"
+	sigGEvalFunc      = "direct-eval-in-global-code|function-declaration|cannot-see-lexical-declarations-of-the-eval-code"
+	sigArrowToStr     = "diff|R7evalstr|toString-not-reparseable|arrowe/parenthesised-body"
+	sigConstTDZ       = "const|assignment-in-temporal-dead-zone|TypeError-instead-of-ReferenceError"
+	sigSurplusArgs    = "function-prologue|arguments-in-stash|surplus-argument-overwrites-captured-variable"
+	sigVarParam       = "function-body|var-redeclares-rest-or-destructured-parameter|rejected-as-already-declared"
+	sigParamSelfRef   = "function-prologue|self-or-forward-referencing-default-parameter|arguments-object-or-TDZ-check-wrong"
+	sigSuperField     = "class-field-initialiser|super-property|rejected-as-unexpected-super"
+	sigNestedLabel    = "label|continue-to-outer-label-of-doubly-labelled-loop|rejected-as-illegal-continue"
+	sigFinallyJump    = "completion-value|finally-left-by-nested-break-or-continue|value-of-try-block-kept"
+	sigNestedJump     = "completion-value|statement-list-left-by-nested-break-or-continue|value-before-the-jump-lost"
+	sigStrictEvalArgs = "strict-function|direct-eval|arguments-object-not-visible"
+	sigDefaultParam   = "function-prologue|default-parameter-after-forward-reference-or-eval|supplied-argument-left-uninitialised"
 )
 
 var recognisers = []recogniser{
@@ -153,8 +155,45 @@ var recognisers = []recogniser{
 			return false
 		})
 	}},
+	{sigNestedJump, func(cp *irjs.Node, f *failure) bool {
+		if f.kind != "value" {
+			return false
+		}
+		// a statement list in which a value-producing statement is followed by a block / labelled block that
+		// contains a break / continue, followed by another value-producing statement
+		return anyNode(cp, func(n *irjs.Node) bool {
+			b := bodyStart(n)
+			if b < 0 {
+				return false
+			}
+			seenValue, seenJump := false, false
+			for _, st := range n.Kids[b:] {
+				switch {
+				case st.Is("expr"):
+					if seenJump {
+						return true
+					}
+					seenValue = true
+				case st.Is("block") || st.Is("label") || st.Is("try") || st.Is("switch"):
+					if seenValue && anyNode(st, func(m *irjs.Node) bool { return m.Is("break") || m.Is("continue") }) {
+						seenJump = true
+					}
+				}
+			}
+			return false
+		})
+	}},
+	{sigStrictEvalArgs, func(cp *irjs.Node, f *failure) bool {
+		strict := f.strict || anyNode(cp, func(n *irjs.Node) bool { return n.Is("directive") })
+		if !strict || f.kind == "panic" || f.kind == "compile" {
+			return false
+		}
+		return anyNode(cp, func(n *irjs.Node) bool {
+			return n.Is("evalstr") && anyNode(n, func(m *irjs.Node) bool { return m.IsAtom("arguments") })
+		})
+	}},
 	{sigSurplusArgs, func(cp *irjs.Node, f *failure) bool {
-		if f.kind == "panic" || f.kind == "compile" {
+		if f.kind == "panic" || f.kind == "compile" || f.kind == "outcome" {
 			return false
 		}
 		// a named function with k simple parameters that contains a closure, called with more than k arguments
@@ -170,7 +209,13 @@ var recognisers = []recogniser{
 						return !hasClosure
 					})
 				}
-				if hasClosure {
+				hasDecl := false
+				for _, b := range n.Kids[2:] {
+					if b.Is("var") || b.Is("let") || b.Is("const") || b.Is("fdecl") || b.Is("classdecl") {
+						hasDecl = true
+					}
+				}
+				if hasClosure && hasDecl {
 					arity[n.Kids[0].Op] = len(n.Kids[1].Kids)
 				}
 			}
